@@ -164,7 +164,7 @@ Lemma len_too_small : zlen txt_too_small = 56. Proof. reflexivity. Qed.
 Lemma len_too_big : zlen txt_too_big = 42. Proof. reflexivity. Qed.
 Lemma len_pfx_flags : zlen txt_pfx_flags = 45. Proof. reflexivity. Qed.
 Lemma len_key_flags : zlen txt_key_flags = 49. Proof. reflexivity. Qed.
-Lemma len_pfx_len : zlen txt_pfx_len = 68. Proof. reflexivity. Qed.
+Lemma len_pfx_len : zlen txt_pfx_len = 72. Proof. reflexivity. Qed.
 Lemma len_unexp_store : zlen txt_unexp_store = 52. Proof. reflexivity. Qed.
 Lemma len_unexp_sync : zlen txt_unexp_sync = 48. Proof. reflexivity. Qed.
 Lemma len_wrong_session : zlen txt_wrong_session = 39. Proof. reflexivity. Qed.
